@@ -100,7 +100,7 @@ PROPS = {
     'C12': dict(
         title='Merkle commitments open only to the committed leaf at the committed position',
         design_ref='DESIGN.md section 4 / C12',
-        bounded=[('plonky2', ['c12_'])],
+        bounded=[('plonky2', ['c12_', 'c16_compression']), ('plonky2@threads1', ['c12_']), ('plonky2@threads3', ['c12_']), ('plonky2@threads5', ['c12_'])],
         vspecs=['contracts/C12/merkle_verify.vspec', 'contracts/C12/merkle_types.vspec', 'contracts/C12/merkle_prove.vspec', 'contracts/C13/hashing.vspec'],
         level_text='Unbounded deductive proof (Verus/Z3), over an uninterpreted hasher, that the real verify_batch_merkle_proof_to_cap / '
                    'verify_merkle_proof_to_cap return Ok exactly when the textbook path fold of the leaf digest with the siblings, directed by the '
@@ -254,7 +254,7 @@ PROPS = {
                    'add_all_lookups, LookupTableGenerator: closure/HashMap code, bounded harness only (11 table/lookup plans incl. 1..3 tables, sizes 1..53, '
                    'exact multiples of the slot counts, heavy repetition, unused entries; every first/middle/last looked-up pair corrupted on both '
                    'sides incl. pairs of another table; unordered tables; adversaries that rewrite a table row or claim multiplicity in an unused slot; lookup outputs are not public inputs, so '
-                   'nothing but the lookup argument catches them).',
+                   'nothing but the lookup argument catches them; every corrupted pair is also handed to a prover that starts the running sums at a chosen offset (guarded hook offset_lookup_sums): this found F10, a soundness defect of the unchanged tree, fixed in 7861f1b; key layouts: strided, shuffled permutations of 0..len, 0 / len-1 at the ends with arbitrary keys between, identity).',
         remainder=['logUp soundness argument', 'check_lookup_constraints* / get_lut_poly (bounded harness only)', 'set_lookup_wires / compute_lookup_polys (bounded harness only)',
                    'add_all_lookups establishes rows_ok (assumed)', 'multiplicity corruptions other than the unused-slot adversary: not exercised'],
     ),
